@@ -59,6 +59,9 @@ contract(
         "len(self.attrpath_order) == old(len(self.attrpath_order)) + 1 "
         "and self.attrpath_order[len(self.attrpath_order) - 1] is self.values[len(self.values) - 1])",
         "implies(old(first_index(self.values, key)) == -1 and old(len(self.attrpath_order)) == 0, len(self.attrpath_order) == 0)",
+        # ... and the entries the cache already had stay where they were
+        "implies(old(first_index(self.values, key)) == -1, "
+        "all(self.attrpath_order[j] is old(self.attrpath_order[j]) for j in range(old(len(self.attrpath_order)))))",
         # overwriting an attrpath-derived root must not leave its stale entries in the render-order cache (C14)
         "implies(old(first_index(self.values, key)) >= 0, " + _NO_STALE_ENTRY + ")",
     ],
